@@ -2,6 +2,7 @@
 C04 — Get returns exactly the addressed message, with a stable error taxonomy.
 -/
 import Klev.Proofs.IndexSearch
+import Klev.Proofs.SearchTie
 import Klev.Proofs.SegSearch
 import Klev.Proofs.GetOK
 namespace Klev.C04
@@ -33,8 +34,16 @@ theorem segment_get_spec (bases : List Int) (off : Int) (hs : SortedB bases)
 example : Index.get [⟨1, 8, 0, 0⟩, ⟨3, 50, 0, 0⟩, ⟨5, 90, 0, 0⟩, ⟨9, 130, 0, 0⟩] 5 = .ok 90 := by decide
 example : Index.get [⟨1, 8, 0, 0⟩, ⟨3, 50, 0, 0⟩, ⟨5, 90, 0, 0⟩, ⟨9, 130, 0, 0⟩] 4 = .error .notFound := by decide
 
+/-- **Regenerated tie (T4).** `index.Get` and `segment.Get` of the current source, translated
+statement by statement on every run, equal the model functions for every input. -/
+theorem search_tie_get (items : List Item) (bases : List Int) (off : Int) :
+    Gen.Search.indexGet items off = Index.get items off ∧
+    Gen.Search.segGet bases off = SegSearch.get bases off :=
+  ⟨Klev.indexGet_tie items off, Klev.segGet_tie bases off⟩
+
 end Klev.C04
 
 #print axioms Klev.C04.get_ok
 #print axioms Klev.C04.index_get_spec
 #print axioms Klev.C04.segment_get_spec
+#print axioms Klev.C04.search_tie_get
